@@ -223,7 +223,7 @@ func (e *Enc) applyCall(name, kind string, fn *ssa.Function, fc *FuncContract, c
 			e.oblige("frame", "call/"+name+"/no-assigns-contract", pos, False, []string{"C04", "C05"}, "compile API called during execution without an assigns contract")
 		} else {
 			for _, a := range fc.Assigns {
-				for _, k := range e.assignKeys(fc, a) {
+				for _, k := range e.assignKeysTyped(fc, fn, a) {
 					parts := strings.Split(k, "|")
 					ok := False
 					if parts[0] == "F" && (e.regionOfStruct(parts[1]) == "perexec" || e.regionOfStruct(parts[1]) == "scratch") {
@@ -236,9 +236,33 @@ func (e *Enc) applyCall(name, kind string, fn *ssa.Function, fc *FuncContract, c
 	}
 	// havoc
 	var mod KeySet
+	type preciseAssign struct {
+		key  string
+		base Term
+	}
+	var precise []preciseAssign
 	if fc != nil && fc.HasAssigns {
 		mod = KeySet{}
 		for _, a := range fc.Assigns {
+			// param.field : only that object's field
+			if parts := strings.SplitN(strings.TrimSpace(a), ".", 2); len(parts) == 2 {
+				if pv, ok := env.vars[parts[0]]; ok && pv.Typ != nil {
+					if pt, ok := pv.Typ.Underlying().(*types.Pointer); ok {
+						if st, ok := pt.Elem().Underlying().(*types.Struct); ok {
+							found := false
+							for fi := 0; fi < st.NumFields(); fi++ {
+								if st.Field(fi).Name() == parts[1] {
+									precise = append(precise, preciseAssign{e.p.fieldKey(pt.Elem(), fi), pv.T})
+									found = true
+								}
+							}
+							if found {
+								continue
+							}
+						}
+					}
+				}
+			}
 			for _, k := range e.assignKeys(fc, a) {
 				mod.Add(k)
 			}
@@ -247,6 +271,16 @@ func (e *Enc) applyCall(name, kind string, fn *ssa.Function, fc *FuncContract, c
 		mod = e.callMod(c)
 	}
 	e.havocForCall(mod, instrOf(c, e.curBlock), args)
+	for _, pa := range precise {
+		old := e.heapGet(e.cur, pa.key)
+		fv := e.fresh("assigned", arrayElemSort(old.Sort))
+		e.heapSet(e.cur, pa.key, e.define("H_"+pa.key, Store(old, pa.base, fv)))
+		if ft := e.p.fieldTypeByKey(pa.key); ft != nil {
+			e.assume(e.typeInv(fv, ft, e.cur.now))
+		}
+		nwv := e.heapGet(e.cur, pa.key)
+		e.monotoneAssume(pa.key, old, nwv)
+	}
 	if len(mod) > 0 || kind != "extern" {
 		// anything that allocates advances the clock
 		nn := e.fresh("now", SInt)
@@ -1321,4 +1355,26 @@ func (e *Enc) initOnlyAssume(key string, old, nw, nowBefore Term) {
 	}
 	q := fmt.Sprintf("(forall ((qo Int)) (! (=> (< (birth qo) %s) (= (select %s qo) (select %s qo))) :pattern ((select %s qo))))", nowBefore.S, nw.S, old.S, nw.S)
 	e.assert(mk(SBool, q))
+}
+
+// assignKeysTyped resolves "param.field" items against the callee's parameter types (type-level key).
+func (e *Enc) assignKeysTyped(fc *FuncContract, fn *ssa.Function, item string) []string {
+	parts := strings.SplitN(strings.TrimSpace(item), ".", 2)
+	if len(parts) == 2 && fn != nil {
+		for _, p := range fn.Params {
+			if p.Name() != parts[0] {
+				continue
+			}
+			if pt, ok := p.Type().Underlying().(*types.Pointer); ok {
+				if st, ok := pt.Elem().Underlying().(*types.Struct); ok {
+					for fi := 0; fi < st.NumFields(); fi++ {
+						if st.Field(fi).Name() == parts[1] {
+							return []string{e.p.fieldKey(pt.Elem(), fi)}
+						}
+					}
+				}
+			}
+		}
+	}
+	return e.assignKeys(fc, item)
 }
